@@ -58,11 +58,16 @@ func (s WSetting) String() string {
 }
 
 func newFlateWriter(dst io.Writer, s WSetting) (*fflate.Writer, error) {
+	return newFlateWriterDict(dst, s, s.dictBytes())
+}
+
+// newFlateWriterDict: as newFlateWriter, with the dictionary in a buffer the caller keeps.
+func newFlateWriterDict(dst io.Writer, s WSetting, dict []byte) (*fflate.Writer, error) {
 	switch s.Ctor {
 	case "4k":
 		return fflate.NewWriterwWith4KWindow(dst, s.Level)
 	case "dict":
-		return fflate.NewWriterDict(dst, s.Level, s.dictBytes())
+		return fflate.NewWriterDict(dst, s.Level, dict)
 	default:
 		return fflate.NewWriter(dst, s.Level)
 	}
